@@ -48,6 +48,8 @@ def run(ctx):
     rep.rule("C23.R4", "loud early stop (C21 engine)", 2)
     rep.rule("C23.R5", "stored points are not modified after they were stored (may-alias analysis)", 1)
     alias.report(rep, "C23.R5", ctx.repo, [(ST, "Newton"), (ST, "Riks")])
+    rep.rule("C23.R9", "every nonlinear solve of a solver is run with the solver's configured options", 6)
+    options_forwarded(ctx)
     rep.rule("C23.R8", "a static solver loop that can stop at a step limit warns or raises when it did", 1)
     step_limit_loud(ctx)
     rep.rule("C23.R7", "Riks: state and load parameter of the first returned point belong to the same point (self.xk)", 1)
@@ -175,6 +177,41 @@ def _resolve_ranges(fn, expr, depth=0):
                 out += r
         return out or None
     return None
+
+
+def options_forwarded(ctx, rule="C23.R9"):
+    """"within the solver tolerance" means the tolerance the solver was CONFIGURED with: every nonlinear solve a solver performs hands the
+    solver's options (self.options, or the constructor's `options` parameter that is stored there) to fsolve.  A call without `options=`
+    solves with SolverOptions() defaults (1e-6), so with a tighter configured tolerance that point - e.g. the first point of a Riks path -
+    misses the tolerance by orders of magnitude without any warning."""
+    rep = ctx.rep
+    n = 0
+    for rel, mod in sorted(ctx.repo.modules.items()):
+        if not rel.startswith("cardillo/solver/"):
+            continue
+        for q, fn in mod.defs().items():
+            if not isinstance(fn, ast.FunctionDef):
+                continue
+            for w in ast.walk(fn):
+                if isinstance(w, ast.Call) and (dotted(w.func) or "").split(".")[-1] == "fsolve" and any(fn is f2 for f2 in [fn]):
+                    # attribute the call to the innermost function only
+                    inner = [f3 for f3 in ast.walk(fn) if isinstance(f3, ast.FunctionDef) and f3 is not fn and any(x is w for x in ast.walk(f3))]
+                    if inner:
+                        continue
+                    n += 1
+                    C = f"{rel}:{q}"
+                    kw = next((k.value for k in w.keywords if k.arg == "options"), None)
+                    if kw is None and len(w.args) >= 5:
+                        kw = w.args[4]
+                    if kw is not None and norm_src(kw) in ("self.options", "options"):
+                        rep.ok(rule, C, f"fsolve(..., options={norm_src(kw)})")
+                    elif kw is None:
+                        rep.bad(rule, C, w, f"`{norm_src(w)[:70]}` does not forward the solver's options: this solve uses the default tolerances and iteration limit instead of the configured ones, "
+                                "so the point it produces can miss the solver tolerance by orders of magnitude without a warning", f"{rel}:{w.lineno}")
+                    else:
+                        rep.bad(rule, C, w, f"fsolve is handed `{norm_src(kw)}` instead of the solver's options", f"{rel}:{w.lineno}")
+    if n < 6:
+        raise AnalysisError(f"{rule}: only {n} fsolve calls found in cardillo/solver")
 
 
 def step_limit_loud(ctx):
@@ -476,6 +513,10 @@ MUTANTS += [
          old="            and load_step <= self.max_load_steps\n", new="            and load_step < self.max_load_steps\n", expect="C23.R8"),
     dict(id="c23-r8-orig", canary=True, what="Riks returns silently when the step limit cuts the run (original defect)", file=ST,
          old="        if load_step > self.max_load_steps:\n            warnings.warn(", new="        if False:\n            warnings.warn(", expect="C23.R8"),
+]
+MUTANTS += [
+    dict(id="c23-r9-seed", canary=True, what="[seeded by sub-agent] Riks: the solve of the zero-load first point loses options=options", file=ST,
+         old="            jac=lambda x: self.J(np.concatenate((x, [0.0])))[:-1, :-1],\n            options=options,\n", new="            jac=lambda x: self.J(np.concatenate((x, [0.0])))[:-1, :-1],\n", expect="C23.R9"),
 ]
 NEUTRAL = [
     dict(id="c23-n-r8", canary=True, what="Riks: loop bound `<` and report guarded by `>=`", file=ST,
